@@ -4,3 +4,5 @@ pub mod paych;
 pub mod multisig;
 pub mod minerctl;
 pub mod market;
+pub mod calls;
+pub mod initd;
